@@ -794,6 +794,13 @@ class Explorer:
         park = "park@%s" % (("%s:%s" % lp) if lp else "explicit")
         if exempt:
             return
+        # K7 (park after close): the registration channel has been seen closed — it will never wake the router again — yet the router
+        # parks on something other than its own final flush instead of finishing
+        if not self.shutdown:
+            for name, v in sorted(objs.items()):
+                if isinstance(v, tuple) and v and v[0] == "chan" and not v[1]:
+                    h.report(it, "K7", "park-after-close:%s" % park,
+                             "the registration channel `%s` is closed (shutdown) but poll returns Pending (%s) instead of finishing: a closed channel never wakes the router, so shutdown waits on an unrelated event" % (name, park), span)
         # K5: enabled sources not registered, buffered work not attempted
         missing = []
         for name, v in sorted(objs.items()):
